@@ -13,7 +13,12 @@ What is modelled, as coded:
   * `calculate_decay_matrix_gaussian_irf`: the per-index loop over `all_centers[n_w]`;
   * `decay_matrix_implementation_index_independent / _index_dependent`: `centers - shift`,
     scales / back-sweep taken from the last index, division by `sum(scales)` when `normalize`;
-    `calculate_decay_matrix_no_irf`; the final `matrix @ a_matrix` (the A-matrix is an input: C04).
+    `calculate_decay_matrix_no_irf`; `calculate_matrix` with its finiteness check and the final `matrix @ a_matrix` (the
+    A-matrix is an input: C04), and what the compiled kernels raise before a matrix comes back (`kernelGuard`: zero width,
+    empty global axis; `calculateMatrixChecked` is what the driver executes);
+  * `Irf.calculate` (on `centers - shift`, fix irf-trace-ignores-shift) and `util.retrieve_irf`.
+Every function with a source counterpart is also regenerated from the source (Generated/C05Fns.lean, Generated/C05Irf.lean) and
+proved equal to the definition here (GlotaranProofs/Props/C05.lean, `generated_*_eq_model`).
 
 All plumbing is exact rational arithmetic (every double is a rational).  The transcendental part
 is written once over an abstract number type (`Num α`: which operation is applied to which
@@ -79,6 +84,16 @@ inductive IrfError where
   | zeroDivision
   /-- a non-finite double would appear (`1e3 / 0.0` on the axis): outside the model -/
   | nonFinite
+  /-- a zero width at some global index of an index-dependent IRF: the division raises inside numba's `prange` loop, where
+      an exception is either turned into a SystemError or lost (the slice of that index then stays as far as it was
+      written), depending on the thread that runs the iteration — not well defined, outside the model (known finding
+      `silent-matrix:zero-width`) -/
+  | zeroWidthParallel
+  /-- ValueError of numba ("cannot compute fingerprint of empty list"): the scales of an index-dependent IRF on an
+      empty global axis are the untouched Python list `[]` -/
+  | emptyList
+  /-- ValueError "Non-finite concentrations" of `calculate_matrix` -/
+  | nonFiniteMatrix
   deriving Repr, DecidableEq, Inhabited
 
 /-- the tuple `parameter` returns -/
@@ -346,7 +361,63 @@ def calculateMatrix {α : Type} [Num α] (irf : Option Irf) (axis times rates : 
   | .ok (.indep m) => .ok (.indep (applyA a ncomp m))
   | .ok (.dep ms) => .ok (.dep (ms.map (applyA a ncomp)))
 
-/-- `Irf.calculate(index, global_axis, model_axis)`:
+/-! ### `calculate_matrix` with its finiteness check, and what the compiled kernels raise -/
+
+/-- `np.all(f(matrix))` -/
+def Matrix.all {α : Type} (f : α → Bool) : Matrix α → Bool
+  | .indep m => m.all (fun row => row.all f)
+  | .dep ms => ms.all (fun m => m.all (fun row => row.all f))
+
+/-- `matrix @ a_matrix` on either shape -/
+def Matrix.applyA {α : Type} [Num α] (a : List (List Rat)) (ncomp : Nat) : Matrix α → Matrix α
+  | .indep m => .indep (Glotaran.C05.applyA a ncomp m)
+  | .dep ms => .dep (ms.map (Glotaran.C05.applyA a ncomp))
+
+/-- `util.calculate_matrix` as written: the decay matrix, `if not np.all(np.isfinite(matrix)): raise ValueError`, then
+    `matrix @ a_matrix`; `fin` is `np.isfinite` on the number type -/
+def calculateMatrixFin {α : Type} [Num α] (fin : α → Bool) (irf : Option Irf) (axis times rates : List Rat)
+    (a : List (List Rat)) (ncomp : Nat) : Except IrfError (Matrix α) :=
+  match decayMatrix irf axis times rates with
+  | .error e => .error e
+  | .ok M => if !(M.all fin) then .error .nonFiniteMatrix else .ok (M.applyA a ncomp)
+
+/-- the widths the kernel divides by: of the single tuple, or of every global index -/
+def kernelWidths (irf : Irf) (axis : List Rat) : List Rat :=
+  if isIndexDependent irf then
+    (List.range axis.length).flatMap (fun i =>
+      match parameter irf (some i) axis with
+      | .ok p => p.widths
+      | .error _ => [])
+  else
+    match parameter irf none axis with
+    | .ok p => p.widths
+    | .error _ => []
+
+/-- What the compiled kernels raise before a matrix comes back (numba, `error_model = python`; the arithmetic of the
+    model is total, so these are stated on the inputs):
+    * an index-dependent IRF on an empty global axis hands numba the Python list `[]` as scales: ValueError;
+    * `beta = (t_n - center) / (width * SQRT2)` with a zero width raises as soon as the loop body runs (at least one
+      time and one rate): ZeroDivisionError from the index-independent kernel; inside the parallel per-index kernel the
+      outcome is not well defined (`zeroWidthParallel`). -/
+def kernelGuard (irf : Irf) (axis times rates : List Rat) : Option IrfError :=
+  if isIndexDependent irf && axis.isEmpty then some .emptyList
+  else if (kernelWidths irf axis).any (· == 0) && !times.isEmpty && !rates.isEmpty then
+    some (if isIndexDependent irf then .zeroWidthParallel else .zeroDivision)
+  else none
+
+/-- `util.calculate_matrix` as observed: errors of `parameter` first, then what the kernels raise, then the finiteness
+    check and the A-matrix -/
+def calculateMatrixChecked {α : Type} [Num α] (fin : α → Bool) (irf : Option Irf) (axis times rates : List Rat)
+    (a : List (List Rat)) (ncomp : Nat) : Except IrfError (Matrix α) :=
+  match decayMatrix (α := α) irf axis times rates with
+  | .error e => .error e
+  | .ok _ =>
+    match irf.bind (fun i => kernelGuard i axis times rates) with
+    | some e => .error e
+    | none => calculateMatrixFin fin irf axis times rates a ncomp
+
+/-- `Irf.calculate(index, global_axis, model_axis)` (after the fix `irf-trace-ignores-shift`: on `centers - shift`, the
+    tuple list the kernel of that index receives):
     `sum(scale * exp(-1 * (t - center)**2 / (2 * width**2)))`, Python's `sum` starts at 0 -/
 def irfCalculate {α : Type} [Num α] (irf : Irf) (index : Nat) (axis times : List Rat) :
     Except IrfError (List α) :=
@@ -354,7 +425,7 @@ def irfCalculate {α : Type} [Num α] (irf : Irf) (index : Nat) (axis times : Li
   | .error e => .error e
   | .ok p =>
     .ok (times.map (fun t =>
-      (p.centers.zip (p.widths.zip p.scales)).foldl
+      (gaussians p.centers p.widths p.scales p.shift).foldl
         (fun acc g => Num.add acc
           (Num.mul (Num.ofRat g.2.2)
             (Num.exp (Num.ofRat (-1 * ((t - g.1) * (t - g.1)) / (2 * (g.2.1 * g.2.1)))))))
@@ -371,8 +442,10 @@ structure IrfResult (α : Type) where
   width : List Rat
   /-- `irf_shift`: `center[0] - shift_i` per global index -/
   shift : Option (List Rat)
-  /-- `irf_center_location[gaussian][index]` (and `center_dispersion_1` = its first row) -/
+  /-- `irf_center_location[gaussian][index]` -/
   centerLocation : Option (List (List Rat))
+  /-- `center_dispersion_1` = `irf_center_location.sel(irf_nr=0)` -/
+  centerDispersion1 : Option (List Rat)
 
 inductive RetrieveError where
   | irf (e : IrfError)
@@ -381,12 +454,13 @@ inductive RetrieveError where
   deriving Repr
 
 /-- `retrieve_irf(dataset_model, dataset, global_dimension)` for a Gaussian IRF (the global dimension is
-    `spectral`, which the dispersion branch reads explicitly) -/
+    `spectral`, which the dispersion branch reads explicitly); `center[0]` / `width[0]` of an empty list: IndexError -/
 def retrieveIrf {α : Type} [Num α] (irf : Irf) (axis times : List Rat) :
     Except RetrieveError (IrfResult α) :=
   match irfCalculate (α := α) irf 0 axis times with
   | .error e => .error (.irf e)
   | .ok v =>
+    if irf.center.isEmpty || irf.width.isEmpty then .error (.irf .indexError) else
     let shiftR : Except RetrieveError (Option (List Rat)) :=
       match irf.shift with
       | none => .ok none
@@ -399,8 +473,8 @@ def retrieveIrf {α : Type} [Num α] (irf : Irf) (axis times : List Rat) :
       if irf.spectral && irf.dispersionCenter.isSome then
         match calculateDispersion irf axis with
         | .error e => .error (.irf e)
-        | .ok loc => .ok ⟨v, irf.center, irf.width, shift, some loc⟩
-      else .ok ⟨v, irf.center, irf.width, shift, none⟩
+        | .ok loc => .ok ⟨v, irf.center, irf.width, shift, some loc, some (loc.getD 0 [])⟩
+      else .ok ⟨v, irf.center, irf.width, shift, none, none⟩
 
 /-! ### executable instance: free terms over exact rationals -/
 
@@ -428,6 +502,21 @@ instance : Num Term where
   erf := .erf
   erfcx := .erfcx
   sqrt2 := .sqrt2
+
+/-- `np.isfinite` on a term, as far as the exact model decides it: a quotient whose denominator is the exact number 0
+    is `inf` or `nan` (`x / 0.0` in numpy); overflow of `exp` is not decided here (the harness observes it) -/
+def Term.finite : Term → Bool
+  | .q _ => true
+  | .add a b => a.finite && b.finite
+  | .sub a b => a.finite && b.finite
+  | .mul a b => a.finite && b.finite
+  | .div a (.q r) => a.finite && r != 0
+  | .div a b => a.finite && b.finite
+  | .neg a => a.finite
+  | .exp a => a.finite
+  | .erf a => a.finite
+  | .erfcx a => a.finite
+  | .sqrt2 => true
 
 /-! ### driver -/
 open Glotaran.Proto
@@ -457,6 +546,9 @@ def showError : IrfError → String
   | .noDispersionCenter => "err:ModelError:dispersion-center"
   | .zeroDivision => "err:ZeroDivisionError"
   | .nonFinite => "unmodelled:non-finite"
+  | .zeroWidthParallel => "unmodelled:zero-width-per-index"
+  | .emptyList => "err:other:ValueError"
+  | .nonFiniteMatrix => "err:ValueError:non-finite"
 
 /-- `[spectral,[centers],[widths],none|[scales],none|[shifts],normalize,backsweep,none|period,
      none|dispersion_center,[center coefs],[width coefs],wavenumber]` -/
@@ -496,7 +588,7 @@ def zeroWidth (irf : Irf) (dep : Bool) (axis : List Rat) : Bool :=
     `kernel [rates] [times] [c] [w] [s] bs T`           → `ok [[term per rate] per time]`
     `matrix irf|none [axis] [times] [rates] [[a]] ncomp` → `indep …` / `dep …` / `err:…` / `unmodelled:…`
     `irfcalc irf idx [axis] [times]`                    → `ok [term per time]`
-    `retrieve irf [axis] [times]`                       → `ok [irf terms] [centres] [widths] none|[shifts] none|[[location]]` -/
+    `retrieve irf [axis] [times]`                       → `ok [irf terms] [centres] [widths] none|[shifts] none|[[location]] none|[dispersion_1]` -/
 def driverStep (s : Unit) (ts : List Tree) : Unit × String :=
   let out : Option String :=
     match ts with
@@ -534,22 +626,9 @@ def driverStep (s : Unit) (ts : List Tree) : Unit × String :=
       let a ← a.ratss?
       let nc ← nc.nat?
       if a.length ≠ rates.length then some "unmodelled:a-matrix-shape" else
-      match irf with
-      | some i =>
-        if isIndexDependent i && axis.isEmpty then some "unmodelled:empty-global-axis"
-        else if zeroWidth i (isIndexDependent i) axis then some "unmodelled:zero-width"
-        else if i.normalize &&
-            (match parameter i (if isIndexDependent i then some (axis.length - 1) else none) axis with
-             | .ok p => p.scales.sum == 0
-             | .error _ => false) then some "unmodelled:zero-scale-sum"
-        else
-          match calculateMatrix (α := Term) (some i) axis times rates a nc with
-          | .ok m => some (showMatrix m)
-          | .error e => some (showError e)
-      | none =>
-        match calculateMatrix (α := Term) none axis times rates a nc with
-        | .ok m => some (showMatrix m)
-        | .error e => some (showError e)
+      match calculateMatrixChecked (α := Term) Term.finite irf axis times rates a nc with
+      | .ok m => some (showMatrix m)
+      | .error e => some (showError e)
     | [.atom "irfcalc", irf, idx, axis, times] => do
       let irf ← parseIrf irf
       let idx ← idx.nat?
@@ -573,7 +652,7 @@ def driverStep (s : Unit) (ts : List Tree) : Unit × String :=
         if p.widths.any (· == 0) then some "unmodelled:zero-width" else
         match retrieveIrf (α := Term) irf axis times with
         | .ok r =>
-          some s!"ok {showTerms r.irf} {showRats r.center} {showRats r.width} {showOpt showRats r.shift} {showOpt (fun l => showList (l.map showRats)) r.centerLocation}"
+          some s!"ok {showTerms r.irf} {showRats r.center} {showRats r.width} {showOpt showRats r.shift} {showOpt (fun l => showList (l.map showRats)) r.centerLocation} {showOpt showRats r.centerDispersion1}"
         | .error (.irf e) => some (showError e)
         | .error .conflictingSizes => some "err:ValueError:conflicting-sizes"
       | .error e => some (showError e)
